@@ -32,6 +32,9 @@ MUTANTS = [
     ('sle-left-stack-reads-slot-i', 'scikit_tt/solvers/sle.py', 'stack_left_op[i] = np.tensordot(stack_left_op[i - 1], solution.cores[i - 1][:, :, 0, :], axes=(0, 0))', 'stack_left_op[i] = np.tensordot(stack_left_op[i], solution.cores[i - 1][:, :, 0, :], axes=(0, 0))', 'fn:__construct_stack_left_op', 'not-None'),
     ('sle-micro-matrix-wrong-transpose', 'scikit_tt/solvers/sle.py', 'micro_op = micro_op.transpose([1, 2, 5, 0, 3, 4]).reshape(\n        solution.ranks[i] * operator.row_dims[i] * solution.ranks[i + 1],', 'micro_op = micro_op.transpose([1, 2, 5, 0, 3, 4]).reshape(\n        solution.ranks[i] * operator.row_dims[i] * solution.ranks[i],', 'fn:__construct_micro_matrix_als', 'reshape-size'),
     ('mals-backward-right-stack-off-by-one', 'scikit_tt/solvers/sle.py', '            __construct_stack_right_op(i + 1, stack_right_op, operator, solution)', '            __construct_stack_right_op(i, stack_right_op, operator, solution)', 'fn:mals', 'pre['),
+    ('tensordot-shares-other (pre-fix behaviour)', F, '        other_cores = [core.copy() for core in other.cores]\n', '        other_cores = other.cores\n', 'TT.tensordot', 'buffers-fresh'),
+    ('tensordot-last-last-no-rank-transposition', F, "                for i in range(first_idx_self, len(tdot.cores)):  # they need to be rank-transposed\n                    tdot.cores[i] = np.transpose(tdot.cores[i], [3, 1, 2, 0])", "                for i in range(first_idx_self, len(tdot.cores)):  # they need to be rank-transposed\n                    tdot.cores[i] = np.transpose(tdot.cores[i], [0, 1, 2, 3])", 'TT.tensordot', ''),
+    ('tensordot-first-last-wrong-slice', F, '                tdot.cores = other_cores[:first_idx_other] + tdot.cores', '                tdot.cores = other_cores[:first_idx_other - 1] + tdot.cores', 'TT.tensordot', ''),
     ('rank_tensordot-no-copy', F, '        if overwrite is False:\n            tdot = self.copy()\n        else:\n            tdot = self\n\n        if mode == \'last\':', '        tdot = self\n\n        if mode == \'last\':', 'TT.rank_tensordot', 'frame'),
 ]
 
